@@ -26,6 +26,7 @@ AST (JSON-able lists):
 """
 
 CALIBRATED = [
+    "UNSPECIFIED (tolerated either way): whether record statements of a sub-scenario are still evaluated in the step in which it was stopped",
     "`terminate when` conditions of a scenario are checked after its compose block ran in the same step",
     "`terminate` executed by a behaviour whose scenario is the top-level one ends the simulation at once (no further agents run in that step)",
     "a sub-scenario started by `do` executes its first step in the same time step",
@@ -349,3 +350,393 @@ def invocable_src(kind, name, d):
         lines.append(f"    invariant: {cond_src(c)}")
     lines += stmts_src(d["body"], "    ")
     return lines
+
+
+# ------------------------------------------------------------------------------------------- scenarios (C12)
+# program = {"timestep": dt, "maxSteps": N, "form": "toplevel"|"modular",
+#            "behaviors": {...}, "monitors": {name: {"body": [...]}},
+#            "scenarios": {name: {"pre": [], "inv": [], "setup": [...], "compose": [...]|None}}}
+# the top-level scenario is scenarios["Main"] (for form "toplevel" it has no compose block and its setup
+# statements are printed at module level).
+# setup statements: ["agent", name, behaviour] ["terminate_after", n, unit] ["terminate_when", cond]
+#   ["terminate_sim_when", cond] ["require_monitor", monitor] ["record", id] ["record_initial", id] ["record_final", id]
+# extra compose statements: ["dosc", id, [names]] ["doscfor", id, [names], n, unit] ["doscuntil", id, [names], cond]
+
+
+class ScenModel:
+    def __init__(self, sim, name, parent=None):
+        self.sim = sim
+        self.w = sim.w
+        self.name = name
+        self.d = sim.prog["scenarios"][name]
+        self.parent = parent
+        self.running = False
+        self.stopped_at = None
+        self.subs = []
+        self.all_subs = []
+        self.monitors = []
+        self.agents = []
+        self.limit = None
+        self.elapsed = 0
+        self.termconds = []
+        self.simtermconds = []
+        self.records = []
+        self.records_initial = []
+        self.records_final = []
+        self.compose = None
+
+    def guards(self):
+        b = BehaviorModel(self.w, {self.name: {"pre": self.d.get("pre", []), "inv": self.d.get("inv", []), "body": []}}, self.name)
+        b.check_pre()
+        b.check_inv()
+
+    def prepare(self):
+        """run the setup block"""
+        self.guards()
+        for st in self.d.get("setup", []):
+            k = st[0]
+            if k == "agent":
+                self.agents.append((st[1], st[2]))
+            elif k == "terminate_after":
+                self.limit = (st[1], st[2])
+            elif k == "terminate_when":
+                self.termconds.append(st[1])
+            elif k == "terminate_sim_when":
+                self.simtermconds.append(st[1])
+            elif k == "require_monitor":
+                self.monitors.append(st[1])
+            elif k == "record":
+                self.records.append(st[1])
+            elif k == "record_initial":
+                self.records_initial.append(st[1])
+            elif k == "record_final":
+                self.records_final.append(st[1])
+            else:
+                raise ValueError(st)
+
+    def start(self):
+        self.running = True
+        self.elapsed = 0
+        if self.limit is not None:
+            self.limit_steps = self.w.steps_of(*self.limit)
+        else:
+            self.limit_steps = None
+        if self.d.get("compose") is not None:
+            defs = {self.name: {"body": self.d["compose"]}}
+            bm = ComposeModel(self.w, defs, self.name, "compose", self)
+            bm.sim = self.sim
+            self.compose = bm.block(self.d["compose"])
+        # behaviours of this scenario's agents start (preconditions checked), then its monitors
+        for aname, bname in self.agents:
+            bm = BehaviorModel(self.w, self.sim.prog["behaviors"], bname, "behavior", self)
+            self.sim.agents.append({"name": aname, "gen": bm.start(), "finished": False, "scen": self})
+        mons = []
+        for m in self.monitors:
+            bm = BehaviorModel(self.w, self.sim.prog["monitors"], m, "monitor", None)
+            mons.append({"gen": bm.start(), "finished": False})
+        self.monitors = mons
+
+    def step(self):
+        """one time step of this scenario; returns None or a termination reason"""
+        if self.limit_steps is not None and self.elapsed >= self.limit_steps:
+            return self.stop("time limit")
+        self.elapsed += 1
+        if self.compose is not None:
+            try:
+                a = next(self.compose)[0]
+            except StopIteration:
+                self.compose = None
+                return self.stop("finished compose block")
+            if isinstance(a, (EndSimulation, EndScenario)):
+                return self.stop(a)
+        for c in self.termconds:
+            if self.w.cond(c):
+                return self.stop("terminate when")
+        return None
+
+    def stop(self, reason):
+        assert self.running
+        self.running = False
+        self.stopped_at = self.w.t
+        for s in self.subs:
+            if s.running:
+                s.stop("parent scenario ending")
+        self.monitors = []
+        if self.compose is not None:
+            self.compose.close()
+            self.compose = None
+        return reason
+
+    def record_now(self, kind, optional=False):
+        """kind: 'initial' | 'series' — evaluated for this scenario, then for its sub-scenarios.
+        Whether a sub-scenario that was stopped during this very step is still recorded is not specified by the
+        reference: such evaluations are emitted as optional events ('rec?')."""
+        ev = "rec?" if optional else "rec"
+        if kind == "initial":
+            for r in self.records_initial:
+                self.w.ev(ev, r)
+                if not optional:
+                    self.sim.records[f"r{r}"] = self.w.t
+        else:
+            for r in self.records:
+                self.w.ev(ev, r)
+                if optional:
+                    self.sim.optional_records.add((f"r{r}", self.w.t))
+                else:
+                    self.sim.records.setdefault(f"r{r}", []).append((self.w.t, self.w.t))
+        for s in self.all_subs:
+            if s.running:
+                s.record_now(kind, optional)
+            elif s.stopped_at == self.w.t:
+                s.record_now(kind, True)
+
+    def run_monitors(self):
+        """returns EndSimulation if a monitor (here or below) ended the simulation, the EndScenario marker if a
+        monitor of THIS scenario terminated it, else None.  `terminate` in a monitor of a sub-scenario only
+        stops that sub-scenario."""
+        reason = None
+        end = None
+        for m in list(self.monitors):
+            if m["finished"]:
+                continue
+            try:
+                a = next(m["gen"])[0]
+            except StopIteration:
+                m["finished"] = True
+                continue
+            if isinstance(a, EndSimulation):
+                reason = a
+            elif isinstance(a, EndScenario):
+                end = a
+        for s in list(self.subs):
+            if s.running:
+                r = s.run_monitors()
+                if isinstance(r, EndSimulation):
+                    reason = r
+        if end is not None and self.running:
+            self.stop(end)
+        return reason or end
+
+
+class ComposeModel(BehaviorModel):
+    """compose block: the behaviour statements plus invocation of sub-scenarios"""
+
+    def stmt(self, st):
+        k = st[0]
+        if k in ("dosc", "doscfor", "doscuntil"):
+            w = self.w
+            w.ev(k, st[1])
+            if k == "dosc":
+                stop = lambda: False
+            elif k == "doscfor":
+                limit = w.steps_of(st[3], st[4])
+                t0 = w.t
+                stop = lambda: w.t - t0 >= limit
+            else:
+                c = st[3]
+                stop = lambda: w.cond(c)
+            if stop():
+                return None
+            subs = [ScenModel(self.sim, n, self.scen) for n in st[2]]
+            for s in subs:
+                s.prepare()
+                s.start()
+            self.scen.subs = subs
+            self.scen.all_subs = self.scen.all_subs + subs
+            try:
+                while True:
+                    new = []
+                    for s in self.scen.subs:
+                        r = s.step()
+                        if isinstance(r, EndSimulation):
+                            yield (r, None)
+                        elif r is None:
+                            new.append(s)
+                    self.scen.subs = new
+                    if not new:
+                        break
+                    yield ((), None)
+                    if stop():
+                        break
+                    self.scen.subs = [s for s in self.scen.subs if s.running]
+            finally:
+                for s in self.scen.subs:
+                    if s.running:
+                        s.stop("do ended")
+                self.scen.subs = []
+            self.check_inv()
+            return None
+        if k == "terminate":
+            self.w.ev("terminate", st[1])
+            yield (EndScenario(self.scen), self)
+            return None
+        return (yield from super().stmt(st))
+
+
+class SimModel:
+    """the ten documented steps"""
+
+    def __init__(self, prog, table, schedule=None):
+        self.prog = prog
+        self.w = World(table, prog.get("timestep", 1))
+        self.agents = []
+        self.records = {}
+        self.optional_records = set()
+        self.schedule = schedule  # function(step, n_agents) -> permutation of range(n)
+
+    def run(self):
+        w = self.w
+        prog = self.prog
+        maxSteps = prog["maxSteps"]
+        actions = []
+        top = ScenModel(self, "Main")
+        try:
+            top.prepare()
+            top.start()
+            w.ev("update", None)
+            term = None
+            while True:
+                reason = top.step()
+                ttype = "scenarioComplete"
+                if w.t == 0:
+                    top.record_now("initial")
+                top.record_now("series")
+                r2 = top.run_monitors()
+                if r2 is not None:
+                    reason = r2
+                    ttype = "terminatedByMonitor"
+                if reason is not None:
+                    term = ttype
+                    break
+                if any(w.cond(c) for c in top.simtermconds):
+                    term = "simulationTerminationCondition"
+                    break
+                if maxSteps and w.t >= maxSteps:
+                    term = "timeLimit"
+                    break
+                order = list(range(len(self.agents)))
+                if self.schedule:
+                    order = self.schedule(w.t, len(order))
+                step_actions = {}
+                ended = None
+                for i in order:
+                    ag = self.agents[i]
+                    a = ()
+                    if not ag["finished"]:
+                        try:
+                            a = next(ag["gen"])[0]
+                        except StopIteration:
+                            ag["finished"] = True
+                            a = ()
+                    if isinstance(a, EndSimulation):
+                        ended = "terminatedByBehavior"
+                        break
+                    if isinstance(a, EndScenario):
+                        scen = ag["scen"]
+                        if scen.running:
+                            scen.stop(a)
+                        if scen is top:
+                            ended = "terminatedByBehavior"
+                            break
+                        a = ()
+                    step_actions[ag["name"]] = tuple(a)
+                if ended:
+                    term = ended
+                    break
+                actions.append(step_actions)
+                w.ev("exec", tuple(sorted((k, v) for k, v in step_actions.items() if v)))
+                w.ev("simstep", None)
+                w.t += 1
+                w.ev("update", None)
+            # step 10
+            if top.running:
+                top.stop("simulation terminated")
+            for r in top.records_final:
+                w.ev("rec", r)
+                self.records[f"r{r}"] = w.t
+        except Reject:
+            return {"outcome": "reject", "log": w.log}
+        except Guard as g:
+            return {"outcome": "reject", "guard": g.kind, "log": w.log}
+        return {"outcome": "ok", "term": term, "actions": actions, "steps": w.t, "records": self.records, "optional_records": sorted(self.optional_records), "log": w.log}
+
+
+def program_src(prog):
+    lines = ["import verif_script as V"]
+    for n, d in prog.get("behaviors", {}).items():
+        lines += invocable_src("behavior", n, d)
+    for n, d in prog.get("monitors", {}).items():
+        lines += invocable_src("monitor", n, d)
+
+    def setup_lines(stmts, ind, agent_index):
+        out = []
+        for st in stmts:
+            k = st[0]
+            if k == "agent":
+                i = next(agent_index)
+                lhs = "ego" if i == 0 else st[1]
+                out.append(f"{ind}{lhs} = new Object at ({i * 5}, 0), with name {st[1]!r}, with behavior {st[2]}()")
+            elif k == "terminate_after":
+                out.append(f"{ind}terminate after {st[1]!r} {st[2]}")
+            elif k == "terminate_when":
+                out.append(f"{ind}terminate when {cond_src(st[1])}")
+            elif k == "terminate_sim_when":
+                out.append(f"{ind}terminate simulation when {cond_src(st[1])}")
+            elif k == "require_monitor":
+                out.append(f"{ind}require monitor {st[1]}()")
+            elif k == "record":
+                out.append(f"{ind}record V.rec({st[1]}) as r{st[1]}")
+            elif k == "record_initial":
+                out.append(f"{ind}record initial V.rec({st[1]}) as r{st[1]}")
+            elif k == "record_final":
+                out.append(f"{ind}record final V.rec({st[1]}) as r{st[1]}")
+        return out
+
+    import itertools
+
+    agent_index = itertools.count()
+
+    def compose_call(names):
+        return ", ".join(f"{n}()" for n in names)
+
+    def compose_lines(stmts, ind):
+        out = []
+        for st in stmts:
+            k = st[0]
+            if k == "dosc":
+                out += [f"{ind}V.ev('dosc', {st[1]})", f"{ind}do {compose_call(st[2])}"]
+            elif k == "doscfor":
+                out += [f"{ind}V.ev('doscfor', {st[1]})", f"{ind}do {compose_call(st[2])} for {st[3]!r} {st[4]}"]
+            elif k == "doscuntil":
+                out += [f"{ind}V.ev('doscuntil', {st[1]})", f"{ind}do {compose_call(st[2])} until {cond_src(st[3])}"]
+            elif k == "loop":
+                out += [f"{ind}for _i in range({st[1]}):"] + compose_lines(st[2], ind + "    ")
+            elif k == "try":
+                out += [f"{ind}try:"] + compose_lines(st[1], ind + "    ")
+                for c, h in st[2]:
+                    out += [f"{ind}interrupt when {cond_src(c)}:"] + compose_lines(h, ind + "    ")
+            else:
+                out += stmts_src([st], ind)
+        return out
+
+    scen = prog["scenarios"]
+    if prog["form"] == "toplevel":
+        lines += setup_lines(scen["Main"]["setup"], "", agent_index)
+    else:
+        order = [n for n in scen if n != "Main"] + ["Main"]
+        for n in order:
+            d = scen[n]
+            lines.append(f"scenario {n}():")
+            for c in d.get("pre", []):
+                lines.append(f"    precondition: {cond_src(c)}")
+            for c in d.get("inv", []):
+                lines.append(f"    invariant: {cond_src(c)}")
+            ai = agent_index if n == "Main" else itertools.count(100)
+            sl = setup_lines(d.get("setup", []), "        ", ai)
+            if sl or n == "Main":
+                lines.append("    setup:")
+                lines += sl or ["        pass"]
+            if d.get("compose") is not None:
+                lines.append("    compose:")
+                lines += compose_lines(d["compose"], "        ")
+    return "\n".join(lines) + "\n"
